@@ -98,5 +98,8 @@ func (fs *FS) fromOSPath(
 	if fsPath == "" {
 		fsPath = "."
 	}
+	if !hackpadfs.ValidPath(fsPath) {
+		return "", errInvalid
+	}
 	return fsPath, nil
 }
